@@ -1,7 +1,15 @@
 use log::trace;
+#[cfg(not(amiquip_verif))]
 use mio_extras::timer::{Timeout, Timer};
 use std::fmt::Debug;
+#[cfg(not(amiquip_verif))]
 use std::time::{Duration, Instant};
+#[cfg(amiquip_verif)]
+use {
+    crate::verif::clock::Instant,
+    crate::verif::timer::{Timeout, Timer},
+    std::time::Duration,
+};
 
 #[derive(Debug, Copy, Clone, PartialEq)]
 pub enum HeartbeatState {
